@@ -3,11 +3,32 @@ package trie
 import (
 	"bytes"
 	"math/bits"
+	"reflect"
+	"runtime"
+	"unsafe"
 
 	"github.com/openacid/low/bitmap"
 	"github.com/openacid/low/bitstr"
 	"github.com/openacid/low/bmtree"
 )
+
+// strCmpUpto compares string `a` with a bitStr `b` the same way as
+// bitstr.CmpUpto does, without copying `a`.
+//
+// bitstr.StrCmpUpto casts a 2-word string header to a 3-word slice header, the
+// capacity of the slice is then a random value on stack and slicing it may
+// panic, e.g., in a race-detector-enabled build.
+func strCmpUpto(a string, b []byte) int {
+	var bs []byte
+	sh := (*reflect.StringHeader)(unsafe.Pointer(&a))
+	bh := (*reflect.SliceHeader)(unsafe.Pointer(&bs))
+	bh.Data = sh.Data
+	bh.Len = sh.Len
+	bh.Cap = sh.Len
+	rst := bitstr.CmpUpto(bs, b)
+	runtime.KeepAlive(a)
+	return rst
+}
 
 type querySession struct {
 	keyBitLen int32
@@ -150,7 +171,7 @@ func (st *SlimTrie) GetID(key string) int32 {
 		}
 
 		if qr.hasInnerPrefix {
-			r := bitstr.StrCmpUpto(key[i>>3:], qr.innerPrefix)
+			r := strCmpUpto(key[i>>3:], qr.innerPrefix)
 			if r != 0 {
 				return -1
 			}
@@ -252,7 +273,7 @@ func (st *SlimTrie) searchID(key string) (lID, eqID, rID int32) {
 		}
 
 		if qr.hasInnerPrefix {
-			r := bitstr.StrCmpUpto(key[i>>3:], qr.innerPrefix)
+			r := strCmpUpto(key[i>>3:], qr.innerPrefix)
 			if r == 0 {
 				i = i&(^7) + qr.innerPrefixLen
 			} else if r < 0 {
